@@ -906,3 +906,12 @@ pub fn c07(ctx: &Ctx) {
     fam::<V3>(ctx);
     fam::<V5>(ctx);
 }
+
+pub fn c10_item_pub<F: Fam>(ctx: &Ctx, ast: &Ast) {
+    let seen = Mutex::new(Seen::default());
+    c10_item::<F>(ctx, ast, &seen);
+}
+
+pub fn c02_oversize_pub(ctx: &Ctx) {
+    c02_oversize(ctx);
+}
